@@ -142,6 +142,23 @@ Decoded(E)    == CASE E.kind = "ugrid"  -> UgridFaces(E)
                    [] E.kind = "exodus" -> ExodusFaces(E)
                    [] E.kind = "scrip"  -> ScripFaces(E)
                    [] OTHER -> <<>>
+\* a short reason (first that applies), for reports and known-finding signatures
+WhyIllFormed(E) ==
+  CASE E.kind = "ugrid" ->
+         IF ~(UgridRequired \subseteq E.has)
+         THEN (IF "topology" \notin E.has THEN "missing:topology"
+               ELSE IF "face_node_connectivity" \notin E.has THEN "missing:face_node_connectivity"
+               ELSE "missing:node_coordinates")
+         ELSE IF Len(E.pos) # E.nnode THEN "node_count"
+         ELSE "start_index_or_fill_not_truthful"
+    [] E.kind = "exodus" ->
+         IF ~(ExodusRequired \subseteq E.has) THEN "missing_variables"
+         ELSE IF Len(E.pos) # E.nnode THEN "node_count"
+         ELSE IF \E b \in DOMAIN E.blocks : \E i \in DOMAIN E.blocks[b] : Len(E.blocks[b][i]) # Len(E.blocks[b][1]) THEN "ragged_block"
+         ELSE "connect_entry_not_a_node_number"
+    [] E.kind = "scrip" ->
+         IF ~(ScripRequired \subseteq E.has) THEN "missing_variables" ELSE "corners"
+    [] OTHER -> "no_dataset"
 \* "start_index and _FillValue say the truth about the stored integers" is UgridRowOK;
 \* this names the reason when it is false
 UgridAttrsTruthful(E) == E.kind = "ugrid" => \A i \in DOMAIN E.conn : UgridRowOK(E, E.conn[i])
